@@ -18,7 +18,7 @@ RULE = ("a structure-aware byte mutator produces public-key and signature string
         "combinations on a valid x and on x in {0, 1, p-1, p, p+1, 2^381-1}; x not on the curve; on-curve points "
         "outside the subgroup (full cofactor component, order 3 / 11 on E1 incl. (0,+-2), order 13 / 23 on E2, "
         "kG+T); identity encodings 0xc0.., 0xe0.., 0x40..; random bytes - placed at every position of a 1-4 "
-        "element key list. Oracles: (i) KeyValidate, Verify, AggregateVerify (3 suites), FastAggregateVerify and "
+        "element key list; plus key LISTS whose pairing equation still holds although members are unsafe (keys differing from valid ones by cofactor torsion, cancelling pairs P+T / Q-T, T and -T appended, three order-3 points, an appended identity). Oracles: (i) KeyValidate, Verify, AggregateVerify (3 suites), FastAggregateVerify and "
         "PopVerify return a bool and never raise; (ii) the result is False whenever the key is not a canonical "
         "48-byte encoding of a non-identity subgroup point or the signature is not a canonical 96-byte encoding "
         "of a subgroup point, and KeyValidate(b) equals the model predicate exactly; (iii) a wrapper around the "
@@ -34,7 +34,9 @@ MUTS = ("valid", "truncated", "extended_lead", "extended_trail", "extended_mid",
 _REQ = ([f"pk:{m}" for m in MUTS] + [f"sig:{m}" for m in MUTS] +
         ["entry:KeyValidate", "entry:Verify", "entry:AggregateVerify", "entry:FastAggregateVerify",
          "entry:PopVerify", "pairing_calls_checked", "accepted:honest", "pos:last", "pos:first",
-         "keyvalidate:True", "keyvalidate:False"])
+         "keyvalidate:True", "keyvalidate:False"] + [f"list:{m}" for m in (
+             "none", "plus_torsion", "cancel_pair", "cancel_triple", "identity_extra", "small_order_pair",
+             "malformed_member", "off_curve_member")] + ["accepted:honest_list"])
 REQUIRED_LABELS = {"quick": _REQ, "thorough": _REQ}
 
 
@@ -169,7 +171,80 @@ def o_case(ctx, case):
     ctx.sample(case, f"{case.get('pk_mut')}/{case.get('sig_mut')}")
 
 
-ORACLES = {"total": o_case}
+LIST_MUTS = ("none", "plus_torsion", "cancel_pair", "cancel_triple", "identity_extra", "small_order_pair",
+             "malformed_member", "off_curve_member")
+
+
+def o_list(ctx, case):
+    """Key LISTS whose pairing equation still holds although members are unsafe: the aggregate is the
+    honest one, and the unsafe members contribute nothing (identity), cancel each other (P+T, Q-T) or
+    differ from a valid key by cofactor torsion (e(H, pk+T) = e(H, pk)).  Only key validation can
+    reject these; the model says every one of them must be refused."""
+    install_monitor()
+    suite, mut, n, a = case["suite"], case["mut"], case["n"], case["a"]
+    ctx.begin("lists", case)
+    S = sc.lib_suite(suite)
+    sks = [2000 + 13 * (a % 7) + 5 * j for j in range(n)]
+    pts = [B.g1_mul(B.G1, k) for k in sks]
+    common = b"c04-list-%d" % (a % 3)
+    msgs = [b"c04-list-%d-%d" % (a % 3, j) for j in range(n)]
+    T = bc.torsion_point("G1", a % 50) if a % 2 else bc.small_point("G1", 11, 1 + a % 3)
+    keys = list(pts)
+    extra_msgs = []
+    if mut == "plus_torsion":
+        keys[a % n] = B.g1_add(keys[a % n], T)
+    elif mut == "cancel_pair":
+        i, j = a % n, (a + 1) % n
+        keys[i], keys[j] = B.g1_add(keys[i], T), B.g1_add(keys[j], BLS.neg("G1", T))
+    elif mut == "cancel_triple":
+        keys += [T, BLS.neg("G1", T)]
+        extra_msgs = [b"extra-1", b"extra-2"]
+    elif mut == "identity_extra":
+        keys.insert(a % (n + 1), None)
+        extra_msgs = [b"extra-1"]
+    elif mut == "small_order_pair":
+        T3 = bc.small_point("G1", 3, 1)
+        keys += [T3, T3, T3]                      # 3 * T3 = O
+        extra_msgs = [b"extra-1", b"extra-2", b"extra-3"]
+    pks = [B.pubkey_bytes(k) for k in keys]
+    if mut == "malformed_member":
+        raw = pks[a % n]
+        pks[a % n] = [raw[:47], b"\x00" + raw, raw + b"\x00", bytes([raw[0] ^ 0x80]) + raw[1:]][a % 4]
+    elif mut == "off_curve_member":
+        pks[a % n] = mutate("G1", pks[a % n], "off_curve", a, a % 5, b"")
+    ok = mut == "none"
+    if not ok and all(B.valid_pubkey(p) for p in pks):
+        raise HarnessError("list mutation produced only valid keys")
+    why = f"the key list contains an unsafe member ({mut})"
+    # FastAggregateVerify: one message, aggregate of the honest signers' signatures
+    if suite == "pop":
+        agg = B.signature_bytes(blssig.aggregate_points([blssig.sign_point("pop", k, common) for k in sks]))
+        out = _call(ctx, case, "lists", "FastAggregateVerify", lambda: S.FastAggregateVerify(pks, common, agg), not ok, why)
+        if ok:
+            ctx.check(out is True, "lists", "honest_list_rejected:FastAggregateVerify", case, "honest key list rejected")
+    # AggregateVerify: per-signer messages; unsafe extra members get messages of their own.  In the
+    # augmentation suite a changed key changes the signed message, so only the other suites keep the
+    # equation intact - the expected verdict (False) is the same everywhere.
+    all_msgs = list(msgs)
+    if mut == "identity_extra":
+        all_msgs.insert(a % (n + 1), extra_msgs[0])
+    else:
+        all_msgs += extra_msgs
+    honest_pks = [B.pubkey_bytes(p) for p in pts]
+    agg2 = B.signature_bytes(blssig.aggregate_points(
+        [blssig.core_sign_point(k, (hp + m if suite == "aug" else m), blssig.DST[suite])
+         for k, hp, m in zip(sks, honest_pks, msgs)]))
+    out = _call(ctx, case, "lists", "AggregateVerify", lambda: S.AggregateVerify(pks, all_msgs, agg2), not ok, why)
+    if ok:
+        ctx.check(out is True, "lists", "honest_list_rejected:AggregateVerify", case, "honest key list rejected")
+        ctx.label("accepted:honest_list")
+    ctx.label(f"list:{mut}")
+    if not ok:
+        ctx.nontrivial(("l", suite, mut, n, a))
+    ctx.sample(case, f"list:{mut}")
+
+
+ORACLES = {"total": o_case, "lists": o_list}
 
 # ---- the mutator --------------------------------------------------------------------------------------
 SPECIAL_X = (0, 1, P - 1, P, P + 1, (1 << 381) - 1)
@@ -284,6 +359,15 @@ def t_total(ctx, shard, nshards, n):
     drive(ctx, f"total{shard}", s_case(), lambda c: o_case(ctx, c), n, ex[shard::nshards], shrink=False)
 
 
+def t_lists(ctx, shard, n):
+    from vf.strategies import uniform_int as ui
+    strat = st.fixed_dictionaries({"suite": sc.s_suite(), "mut": st.sampled_from(LIST_MUTS), "n": st.integers(2, 4),
+                                   "a": st.integers(0, 10 ** 6)})
+    ex = [{"suite": sc.SUITES[(i + shard) % 3], "mut": m, "n": 2 + i % 2, "a": 3 * i + shard} for i, m in enumerate(LIST_MUTS)]
+    ex += [{"suite": "pop", "mut": m, "n": 2, "a": 5 + shard} for m in ("cancel_pair", "cancel_triple", "small_order_pair")]
+    drive(ctx, f"lists{shard}", strat, lambda c: o_list(ctx, c), n, ex if shard < 3 else (), shrink=False)
+
+
 def t_lengths(ctx, suite):
     """every truncation length of a key and of a signature (finite, complete)."""
     sk, pk, msg, sig = honest(suite, 1)
@@ -299,6 +383,12 @@ def t_lengths(ctx, suite):
     ctx.subspace(f"{suite}: all truncation lengths 0..47 of a key and 0..95 of a signature", cnt)
 
 
+def t_fuzz(ctx, worker, runs, empty):
+    """atheris campaign over the byte-level decoders with this module's oracle inside the target."""
+    from vf.harness import run_fuzz_campaign
+    run_fuzz_campaign(ctx, "c04", runs, ctx.seed_for("fuzz", worker), empty_corpus=empty)
+
+
 def tasks(tier):
     selfcheck()
     q = tier == "quick"
@@ -306,4 +396,9 @@ def tasks(tier):
     out = [Task(f"total-{s}", "t_total", shard=s, nshards=ns, n=70 if q else 2500) for s in range(ns)]
     for suite in sc.SUITES:
         out.append(Task(f"lengths-{suite}", "t_lengths", suite=suite))
+    for s in range(4):
+        out.append(Task(f"lists-{s}", "t_lists", shard=s, n=6 if q else 300))
+    if not q:
+        for w in range(10):
+            out.append(Task(f"fuzz-{w}", "t_fuzz", worker=w, runs=3000, empty=w >= 8))
     return out
